@@ -107,9 +107,9 @@ func (c *Conn) Read(p []byte) (int, error) {
 	if c.ReadChunk > 0 && n > c.ReadChunk {
 		n = c.ReadChunk
 	}
+	raceAcquire(c.in)
 	copy(p, c.in.buf[:n])
 	c.in.buf = c.in.buf[n:]
-	raceAcquire(c.in)
 	return n, nil
 }
 
@@ -135,7 +135,7 @@ func (c *Conn) Write(p []byte) (int, error) {
 	}
 	c.out.buf = append(c.out.buf, p...)
 	c.BytesWritten += len(p)
-	raceRelease(c.out)
+	raceReleaseMerge(c.out)
 	return len(p), nil
 }
 
@@ -197,7 +197,10 @@ func (c *Conn) SetWriteDeadline(t time.Time) error { c.wdl = vdl(t); return nil 
 // Inject makes b readable by this end's owner (the peer "sent" it).
 //
 //go:norace
-func (c *Conn) Inject(b []byte) { c.in.buf = append(c.in.buf, b...) }
+func (c *Conn) Inject(b []byte) {
+	c.in.buf = append(c.in.buf, b...)
+	raceReleaseMerge(c.in)
+}
 
 // TakeAll removes and returns everything this end's owner has written.
 //
@@ -205,6 +208,7 @@ func (c *Conn) Inject(b []byte) { c.in.buf = append(c.in.buf, b...) }
 func (c *Conn) TakeAll() []byte {
 	b := c.out.buf
 	c.out.buf = nil
+	raceAcquire(c.out)
 	return b
 }
 
@@ -234,3 +238,8 @@ func (c *Conn) SetOutCapacity(n int) { c.out.capacity = n }
 
 //go:norace
 func (c *Conn) Closed() bool { return c.closed }
+
+// PeekOut returns what this end's owner has written and the peer has not taken (not a copy).
+//
+//go:norace
+func (c *Conn) PeekOut() []byte { return c.out.buf }
